@@ -98,7 +98,9 @@ BOUNDS = {
              "argument, over sampling given at construction / trimming (3,3) and (1,1) / PSF 3x3, 1x1 and None / simulator with and without PSF "
              "and Poisson noise / S/N-limited noise map with and without noise_limit_mask): 4 named masks, concrete dyadic data and noise values. "
              "Overlay image mesh: 2x2 on 2 named masks with |o|,|o+d| <= 1 (0.75) pixel per axis; 3x3, 1x1, 1x3, 3x1, 2x3 on 5 named masks and "
-             "2x2 on all 2x3 masks with unbounded origin.",
+             "2x2 on all 2x3 masks with unbounded origin. Shared option objects: on 3 named masks + all 2x2 masks ONE OverSamplingUniform (sub 2/3 and "
+             "1) / OverSamplingIterate / OverSamplingDataset (explicit and default) / Overlay / mesh.Rectangular / mesh.Delaunay / reg.Constant / "
+             "SettingsInversion / Preloads / PSF / SimulatorImaging instance is used for the run at o and the run at o+d, in both orders.",
     "thorough": "as quick plus ALL masks of 3x3, 2x4, 4x2, 2x5, 5x2; every named mask a second time with kernel (3,5), sub size 3, pads (+1,+4); more "
                 "shapes for points / radial; rectangular + Delaunay mappers on all 2x3 masks and more named masks; datasets on 8 named masks and all "
                 "2x3 and 2x2 masks; overlay additionally on blob6x7 (2x3 mesh), all 2x2 masks (bounded) and all 3x3 masks (3x2 and 1x1 meshes, unbounded).",
@@ -843,6 +845,117 @@ def case_mapper(ctx, scales, kind, sub=2, mesh_shape=(3, 3), name=None, H=None, 
          {}, validate_every=1 if name else 16)
 
 
+# ------------------------------------------------------------------------------------------------ shared option objects
+
+def _shared_objects(scales, sub):
+    """option objects a user naturally creates once and re-uses for several (translated) masks / datasets"""
+    import autoarray as aa
+    S = {}
+    S["osu"] = aa.OverSamplingUniform(sub_size=sub)
+    S["osu1"] = aa.OverSamplingUniform(sub_size=1)
+    S["osi"] = aa.OverSamplingIterate(fractional_accuracy=0.5, sub_steps=[2, 4])
+    S["osd"] = aa.OverSamplingDataset(uniform=aa.OverSamplingUniform(sub_size=sub), non_uniform=aa.OverSamplingUniform(sub_size=1),
+                                      pixelization=aa.OverSamplingUniform(sub_size=sub))
+    S["osd_default"] = aa.OverSamplingDataset()
+    S["overlay"] = aa.image_mesh.Overlay(shape=(2, 2))
+    S["rect"] = aa.mesh.Rectangular(shape=(3, 3))
+    S["delaunay"] = aa.mesh.Delaunay()
+    S["reg"] = aa.reg.Constant(coefficient=1.0)
+    S["settings"] = aa.SettingsInversion()
+    S["preloads"] = aa.Preloads()
+    S["psf"] = aa.Kernel2D.no_mask(values=[[0.0, 1.0, 0.0], [1.0, 2.0, 1.0], [0.0, 1.0, 0.0]], pixel_scales=scales)
+    S["sim"] = aa.SimulatorImaging(exposure_time=128.0, psf=S["psf"], background_sky_level=0.5, add_poisson_noise_to_data=False,
+                                   include_poisson_noise_in_noise_map=False, noise_if_add_noise_false=0.25, noise_seed=1)
+    return S
+
+
+def shared_outputs(mask, scales, o, S, data_v, noise_v, tag):
+    """entry points that receive the shared option objects S (state cached on them by the run at the other origin is exposed)"""
+    import autoarray as aa
+    H, W = mask.shape
+    R = Out()
+    org = (o[0], o[1])
+    m = aa.Mask2D(mask=mask.copy(), pixel_scales=scales, origin=org)
+    for k in ("osu", "osu1"):
+        R.put("shared %s.over_sampler_from.over_sampled_grid%s" % (k, tag), "coord", lambda: S[k].over_sampler_from(mask=m).over_sampled_grid.array)
+        R.put("shared %s.over_sampler_from.mask.origin%s" % (k, tag), "coord", lambda: S[k].over_sampler_from(mask=m).mask.origin)
+        g = hx.attempt(lambda: aa.Grid2D.from_mask(mask=m, over_sampling=S[k]))
+        R.put("shared %s Grid2D.from_mask.over_sampler.over_sampled_grid%s" % (k, tag), "coord", lambda: _reraise(g).over_sampler.over_sampled_grid.array)
+        R.put("shared %s Grid2D.from_mask.over_sampler.mask.origin%s" % (k, tag), "coord", lambda: _reraise(g).over_sampler.mask.origin)
+        R.put("shared %s Grid2D.uniform.over_sampler.over_sampled_grid%s" % (k, tag), "coord",
+              lambda: aa.Grid2D.uniform(shape_native=(H, W), pixel_scales=scales, origin=org, over_sampling=S[k]).over_sampler.over_sampled_grid.array)
+    R.put("shared osi Grid2D.from_mask.over_sampler.mask.origin" + tag, "coord",
+          lambda: aa.Grid2D.from_mask(mask=m, over_sampling=S["osi"]).over_sampler.mask.origin)
+    data = aa.Array2D.no_mask(values=np.array(data_v).reshape(H, W).copy(), pixel_scales=scales, origin=org)
+    noise = aa.Array2D.no_mask(values=np.array(noise_v).reshape(H, W).copy(), pixel_scales=scales, origin=org)
+    for k in ("osd", "osd_default"):
+        ds = hx.attempt(lambda: aa.Imaging(data=data, noise_map=noise, psf=S["psf"], check_noise_map=False, over_sampling=S[k]))
+        dm = hx.attempt(lambda: _reraise(ds).apply_mask(mask=m))
+        do = hx.attempt(lambda: aa.Imaging(data=data, noise_map=noise, psf=S["psf"], check_noise_map=False).apply_mask(mask=m).apply_over_sampling(
+            over_sampling=S[k]))
+        for nm, d in (("Imaging(over_sampling)", ds), ("Imaging(over_sampling).apply_mask", dm), ("Imaging.apply_mask.apply_over_sampling", do)):
+            t = "shared %s %s" % (k, nm)
+            R.put(t + ".grids.uniform" + tag, "coord", lambda: _reraise(d).grids.uniform.slim.array)
+            if k == "osd":
+                R.put(t + ".grids.uniform.over_sampled" + tag, "coord", lambda: _reraise(d).grids.uniform.over_sampler.over_sampled_grid.array)
+            R.put(t + ".grids.pixelization.over_sampled" + tag, "coord", lambda: _reraise(d).grids.over_sampler_pixelization.over_sampled_grid.array)
+            R.put(t + ".grids.border_relocator.sub_border_grid" + tag, "coord", lambda: _reraise(d).grids.border_relocator.sub_border_grid)
+            if k == "osd":
+                R.put(t + ".grids.non_uniform.over_sampled" + tag, "coord", lambda: _reraise(d).grids.over_sampler_non_uniform.over_sampled_grid.array)
+    R.put("shared psf Imaging.apply_mask.grids.blurring" + tag, "coord",
+          lambda: aa.Imaging(data=data, noise_map=noise, psf=S["psf"], check_noise_map=False).apply_mask(mask=m).grids.blurring.slim.array,
+          allow=("MaskException",))
+    R.put("shared sim SimulatorImaging.via_image_from.grid" + tag, "coord", lambda: S["sim"].via_image_from(image=data).grids.uniform.slim.array)
+    R.put("shared overlay image_plane_mesh_grid_from" + tag, "coord",
+          lambda: S["overlay"].image_plane_mesh_grid_from(mask=m, adapt_data=None, settings=S["settings"]).array)
+    osamp = aa.OverSamplerUniform(mask=m, sub_size=2)
+    data_grid = osamp.over_sampled_grid
+    _CUR_ORIGIN[0] = o
+    for kind in ("rect", "delaunay"):
+        pts = None if kind == "rect" else aa.Grid2DIrregular(
+            values=[(o[0] + a * scales[0], o[1] + b * scales[1]) for (a, b) in DELAUNAY_REL])
+        mg = hx.attempt(lambda: S[kind].mapper_grids_from(mask=m, border_relocator=None, source_plane_data_grid=data_grid,
+                                                          source_plane_mesh_grid=pts, preloads=S["preloads"]))
+        mp = hx.attempt(lambda: aa.Mapper(mapper_grids=_reraise(mg), over_sampler=osamp, regularization=S["reg"]))
+        t = "shared mesh/reg/preloads Mapper(%s)" % kind
+        R.put(t + ".source_plane_mesh_grid" + tag, "coord", lambda: _reraise(mp).source_plane_mesh_grid.array)
+        R.put(t + ".pix_indexes_for_sub_slim_index" + tag, "inv", lambda: np.asarray(_reraise(mp).pix_indexes_for_sub_slim_index, dtype=float))
+        R.put(t + ".mapping_matrix" + tag, "inv", lambda: _reraise(mp).mapping_matrix)
+        R.put(t + ".regularization_matrix" + tag, "inv", lambda: _reraise(mp).regularization_matrix)
+    return R
+
+
+def body_shared(inp, H, W, scales, sub, _keep=None):
+    """both runs share ONE set of option objects; done in both orders (origin o first / origin o+d first)"""
+    mask = np.array(inp["mask"], dtype=bool).reshape(H, W)
+    o1, o2, d = _origins(inp)
+    scales = tuple(scales)
+    data, noise = _dataset_values(H, W)
+    R1, R2 = Out(), Out()
+    S = _shared_objects(scales, sub)
+    R1.update(shared_outputs(mask, scales, o1, S, data, noise, " [o first]"))
+    R2.update(shared_outputs(mask, scales, o2, S, data, noise, " [o first]"))
+    S = _shared_objects(scales, sub)
+    R2.update(shared_outputs(mask, scales, o2, S, data, noise, " [o+d first]"))
+    R1.update(shared_outputs(mask, scales, o1, S, data, noise, " [o+d first]"))
+    if _keep is not None:
+        _keep["R1"], _keep["R2"] = R1, R2
+    return relate(R1, R2, d)
+
+
+def case_shared(ctx, scales, sub=2, name=None, H=None, W=None):
+    _early_stop(ctx)
+    if name is not None:
+        mask = MASKS[name]
+        H, W = mask.shape
+    else:
+        mask = _fork_mask(ctx, H, W)
+    ctx.set_case(mask=mask.tolist())
+    inputs = _sym_origin(ctx)
+    inputs["mask"] = mask
+    _run(ctx, body_shared, inputs, {"H": H, "W": W, "scales": list(scales), "sub": sub}, {}, validate_every=1 if name else 16)
+
+
 def POST_INSTALL():
     """library boundaries that receive all-concrete object arrays: hand them float64 (scipy convolution, Poisson draws)"""
     from symx import shim
@@ -968,7 +1081,7 @@ def _simplified(x):
 
 
 BODIES = {"case_geometry": body_geometry, "case_geometry_named": body_geometry, "case_overlay": body_overlay,
-          "case_dataset": body_dataset, "case_points": body_points, "case_radial": body_radial, "case_mapper": body_mapper}
+          "case_dataset": body_dataset, "case_points": body_points, "case_radial": body_radial, "case_mapper": body_mapper, "case_shared": body_shared}
 
 
 def cases(tier):
@@ -1017,6 +1130,12 @@ def cases(tier):
     if not quick:
         out.append(("case_dataset", {"H": 2, "W": 3, "scales": [0.25, 0.5]}, {"split": 4}))
         out.append(("case_dataset", {"H": 2, "W": 2, "scales": [0.5, 2.0]}, {"split": 2}))
+    # one set of option objects (over-sampling, image mesh, mesh, regularization, settings, preloads, PSF, simulator) shared by both runs
+    for n, name in enumerate(["disc7", "ring5", "full3x3"] + ([] if quick else ["edge4x6", "blob6x7", "cross7", "full4x3"])):
+        out.append(("case_shared", {"name": name, "scales": SCALES[n % len(SCALES)], "sub": 2 if n % 2 == 0 else 3}))
+    out.append(("case_shared", {"H": 2, "W": 2, "scales": [0.5, 2.0]}))
+    if not quick:
+        out.append(("case_shared", {"H": 2, "W": 3, "scales": [1.0, 1.0]}, {"split": 2}))
     caps = [(H, W) for H in range(1, 4) for W in range(1, 4) if H * W <= 6]
     if not quick:
         caps += [(3, 3), (2, 4), (4, 2), (2, 5), (5, 2)]
@@ -1041,6 +1160,11 @@ def replay(cand):
             kw["H"], kw["W"] = MASKS[kw["name"]].shape
         kw.pop("name", None)
         kw.setdefault("sub", 2); kw.setdefault("mesh_shape", [3, 3])
+    elif cand["case_fn"] == "case_shared":
+        if kw.get("name") is not None:
+            kw["H"], kw["W"] = MASKS[kw["name"]].shape
+        kw.pop("name", None)
+        kw.setdefault("sub", 2)
     elif cand["case_fn"] == "case_dataset":
         if kw.get("name") is not None:
             kw["H"], kw["W"] = MASKS[kw["name"]].shape
